@@ -18,7 +18,9 @@ pub const BACKEND_NAMES: [&str; 6] = ["auto", "sse2", "ssse3", "sse41", "avx", "
 
 /// Name of the build configuration as far as backend selection is concerned.
 pub fn build_kind() -> &'static str {
-    if cfg!(miri) {
+    if cfg!(all(miri, target_endian = "big")) {
+        "miri-generic-be"
+    } else if cfg!(miri) {
         "miri-generic"
     } else if cfg!(feature = "portable") {
         "portable"
@@ -312,9 +314,13 @@ impl_dyn_hash!(blake_hash::Blake224);
 impl_dyn_hash!(blake_hash::Blake256);
 impl_dyn_hash!(blake_hash::Blake384);
 impl_dyn_hash!(blake_hash::Blake512);
+#[cfg(target_arch = "x86_64")]
 impl_dyn_hash!(groestl_aesni::Groestl224);
+#[cfg(target_arch = "x86_64")]
 impl_dyn_hash!(groestl_aesni::Groestl256);
+#[cfg(target_arch = "x86_64")]
 impl_dyn_hash!(groestl_aesni::Groestl384);
+#[cfg(target_arch = "x86_64")]
 impl_dyn_hash!(groestl_aesni::Groestl512);
 impl_dyn_hash!(jh_x86_64::Jh224);
 impl_dyn_hash!(jh_x86_64::Jh256);
@@ -474,9 +480,13 @@ impl HashId {
             (Fam::Blake, 256) => Box::new(blake_hash::Blake256::default()),
             (Fam::Blake, 384) => Box::new(blake_hash::Blake384::default()),
             (Fam::Blake, 512) => Box::new(blake_hash::Blake512::default()),
+            #[cfg(target_arch = "x86_64")]
             (Fam::Groestl, 224) => Box::new(groestl_aesni::Groestl224::default()),
+            #[cfg(target_arch = "x86_64")]
             (Fam::Groestl, 256) => Box::new(groestl_aesni::Groestl256::default()),
+            #[cfg(target_arch = "x86_64")]
             (Fam::Groestl, 384) => Box::new(groestl_aesni::Groestl384::default()),
+            #[cfg(target_arch = "x86_64")]
             (Fam::Groestl, 512) => Box::new(groestl_aesni::Groestl512::default()),
             (Fam::Jh, 224) => Box::new(jh_x86_64::Jh224::default()),
             (Fam::Jh, 256) => Box::new(jh_x86_64::Jh256::default()),
@@ -493,9 +503,13 @@ impl HashId {
             (Fam::Blake, 256) => blake_hash::Blake256::digest(m).to_vec(),
             (Fam::Blake, 384) => blake_hash::Blake384::digest(m).to_vec(),
             (Fam::Blake, 512) => blake_hash::Blake512::digest(m).to_vec(),
+            #[cfg(target_arch = "x86_64")]
             (Fam::Groestl, 224) => groestl_aesni::Groestl224::digest(m).to_vec(),
+            #[cfg(target_arch = "x86_64")]
             (Fam::Groestl, 256) => groestl_aesni::Groestl256::digest(m).to_vec(),
+            #[cfg(target_arch = "x86_64")]
             (Fam::Groestl, 384) => groestl_aesni::Groestl384::digest(m).to_vec(),
+            #[cfg(target_arch = "x86_64")]
             (Fam::Groestl, 512) => groestl_aesni::Groestl512::digest(m).to_vec(),
             (Fam::Jh, 224) => jh_x86_64::Jh224::digest(m).to_vec(),
             (Fam::Jh, 256) => jh_x86_64::Jh256::digest(m).to_vec(),
@@ -529,6 +543,10 @@ impl HashId {
 pub fn fixed_hashes() -> Vec<HashId> {
     let mut v = Vec::new();
     for fam in [Fam::Blake, Fam::Groestl, Fam::Jh] {
+        // groestl-aesni is x86-64 only: on other targets (the big-endian Miri configuration) it is absent
+        if fam == Fam::Groestl && !cfg!(target_arch = "x86_64") {
+            continue;
+        }
         for bits in [224u32, 256, 384, 512] {
             v.push(HashId { fam, bits, out: bits as usize / 8 });
         }
